@@ -3,6 +3,7 @@ import Rbql.Model.Csv
 import Rbql.Model.ReaderPy
 import Rbql.Model.ReaderJs
 import Rbql.Model.Writer
+import Rbql.Model.Like
 import Driver.Codec
 open Rbql Driver
 
@@ -95,6 +96,10 @@ def step (line : String) : String :=
           let t := if enc == "none" then text else univNewlines text
           encRead (readAll (mkCfg pol enc (toString (t.length + 1)) d "~") false none (if t.isEmpty then [] else [t]))
       s!"{encWrite w} | {rd}"
+  | ["likebatch", js, table] =>
+    String.ofList ((decTable table).map (fun r => if likeImpl (decBool js) (r.getD 0 []) (r.getD 1 []) then '1' else '0'))
+  | ["likespec", table] =>
+    String.ofList ((decTable table).map (fun r => if likeSpec (r.getD 1 []) (r.getD 0 []) then '1' else '0'))
   | ["readboth", pol, enc, hdr, modi, d, comment, text] =>
     -- one file, both readers: Python (through TextIOWrapper) and JS must deliver the same result
     let t := decStr text
